@@ -90,6 +90,11 @@ async fn matrix(kind: NxProofKind, label: &str) -> Vec<String> {
         ("nx.example.", RecordType::A, "nxdomain"),
         ("0.example.", RecordType::A, "nxdomain"),
         ("zzzz.example.", RecordType::A, "nxdomain"),
+        ("x.y.m.example.", RecordType::A, "nxdomain"),
+        ("y.m.example.", RecordType::A, "nxdomain"),
+        ("q.r.www.example.", RecordType::A, "nxdomain"),
+        ("q.zzz.example.", RecordType::A, "nxdomain"),
+        ("a.b.c.ent.example.", RecordType::A, "nxdomain"),
         ("x.w.example.", RecordType::A, "answer"),
         ("a.b.w.example.", RecordType::A, "answer"),
         ("x.w.example.", RecordType::MX, "nodata"),
@@ -98,7 +103,7 @@ async fn matrix(kind: NxProofKind, label: &str) -> Vec<String> {
         ("z.ent.example.", RecordType::A, "nxdomain"),
         ("alias.example.", RecordType::A, "answer"),
         ("alias.example.", RecordType::CNAME, "answer"),
-        ("alias.example.", RecordType::TXT, "nodata"),
+        ("alias.example.", RecordType::TXT, "answer"),
         ("dangling.example.", RecordType::A, "any"),
         ("sub.example.", RecordType::DS, "nodata"),
         ("*.w.example.", RecordType::A, "answer"),
